@@ -439,7 +439,7 @@ static int run_one(const vs_config_t* cfg) {
   if (pid == 0) {
     vs_res = shres;
     vs_install_crash_handlers();
-    int st = vs_run_inproc(cfg, rt_main, 0);
+    int st = vs_run_inproc(cfg, H->entry ? H->entry : rt_main, 0);
     _exit(st == 1 ? 0 : st == 2 ? 10 : 11);
   }
   double t0 = now_s();
